@@ -385,7 +385,7 @@ pub fn run(ctx: &Ctx) -> Outcome {
     );
     let d = directed();
     run_cases(ctx, &mut out, SubSpec { name: "directed", cases: d.len() as u64, exhaustive: false, max_secs: 60. }, |i, want, st| run_case(ctx, &d[i as usize], st, want));
-    run_cases(ctx, &mut out, SubSpec { name: "gradients", cases: ctx.n(12_000, 800_000), exhaustive: false, max_secs: if ctx.quick() { 40. } else { 900. } }, |i, want, st| {
+    run_cases(ctx, &mut out, SubSpec { name: "gradients", cases: ctx.n(40_000, 800_000), exhaustive: false, max_secs: if ctx.quick() { 40. } else { 900. } }, |i, want, st| {
         let mut rng = ctx.rng("gradients", i);
         let c = gen_case(&mut rng);
         run_case(ctx, &c, st, want)
